@@ -75,6 +75,33 @@ Theorem C10_lossless : forall mtu avc, 3 <= mtu <= 65535 -> forall ns st,
 Proof. exact nalus_lossless. Qed.
 Print Assumptions C10_lossless.
 
+(* the SHAPE of the whole output (the property's second sentence), composed over the hold-back logic and the
+   unit walk: for every sequence of valid units and every reachable payloader state the output is a sequence
+   of groups in the order in which the units are delivered - [out_shape]: per delivered unit either the unit
+   itself as a single NAL unit packet, or at least two FU-A fragments ([fua_rel]: indicator 28 | F | NRI of
+   the unit on all, its type on all, S on the first only, E on the last only, non-empty chunks that
+   concatenate to its body); per held SPS/PPS pair that fits, one STAP-A - and IsPartitionHead is true on
+   exactly the first payload of each group ([hs] is true there and false elsewhere) *)
+From RTP Require Import Proofs.C10_Shape.
+
+Theorem C10_shape : forall mtu, 3 <= mtu <= 65535 -> forall ns st,
+  Forall valid_nal ns -> held_valid st ->
+  exists fs hs, h264_nalus mtu st ns = Ok (fst (deliver_all st ns), fs) /\
+    out_shape (snd (deliver_all st ns)) fs hs /\
+    map (fun f => h264_is_partition_head (Some (own_bytes f))) fs = hs.
+Proof.
+  intros mtu Hm ns st Hv Hh. destruct (nalus_shape mtu Hm ns st Hv Hh) as (fs & hs & Hr & Hs).
+  exists fs, hs. split; [exact Hr|]. split; [exact Hs|]. exact (out_shape_heads _ _ _ Hs).
+Qed.
+Print Assumptions C10_shape.
+
+(* SPS, PPS, an 8-byte IDR and a 2-byte slice at MTU 5, STAP-A off: six groups' worth of structure in one call -
+   the IDR becomes three fragments, only the first of which is a partition head *)
+Example C10_shape_nonvacuous :
+  exists fs, h264_nalus 5 (mkH264Pay true None None) [[103; 1]; [104; 2]; [101; 1; 2; 3; 4; 5; 6; 7]; [65; 9]] = Ok (mkH264Pay true None None, fs) /\
+    map (fun f => h264_is_partition_head (Some (own_bytes f))) fs = [true; true; true; false; false; true].
+Proof. eexists. split; vm_compute; reflexivity. Qed.
+
 Theorem C10_access_unit : forall mtu avc b n t st, 3 <= mtu <= 65535 ->
   AnnexBSplit.valid_nal n -> Forall (fun x => AnnexBSplit.valid_nal (snd x)) t ->
   Forall valid_nal (n :: map snd t) -> held_valid st ->
